@@ -1,4 +1,11 @@
+import NucsProofs.Propagators.Affine
 import NucsProofs.Propagators.AffineLeq
+import NucsProofs.Propagators.CountEq
+import NucsProofs.Propagators.Counting
+import NucsProofs.Propagators.Dummy
+import NucsProofs.Propagators.Element
+import NucsProofs.Propagators.MinMax
+
 /-!
   C05 — filtering never removes a value that takes part in a solution.
 
@@ -9,7 +16,26 @@ import NucsProofs.Propagators.AffineLeq
 -/
 namespace Nucs
 
+theorem C05_and : Sound .and := sound_and
+theorem C05_affineEq : Sound .affineEq := sound_affineEq
+theorem C05_affineGeq : Sound .affineGeq := sound_affineGeq
 theorem C05_affineLeq : Sound .affineLeq := sound_affineLeq
+theorem C05_countEq : Sound .countEq := sound_countEq
+theorem C05_dummy : Sound .dummy := sound_dummy
+theorem C05_elementIv : Sound .elementIv := sound_elementIv
+theorem C05_elementLiv : Sound .elementLiv := sound_elementLiv
+theorem C05_elementLic : Sound .elementLic := sound_elementLic
+theorem C05_exactlyEq : Sound .exactlyEq := sound_exactlyEq
+theorem C05_exactlyTrue : Sound .exactlyTrue := sound_exactlyTrue
+theorem C05_maxEq : Sound .maxEq := sound_maxEq
+theorem C05_maxLeq : Sound .maxLeq := sound_maxLeq
+theorem C05_minEq : Sound .minEq := sound_minEq
+theorem C05_minGeq : Sound .minGeq := sound_minGeq
+theorem C05_relation : Sound .relation := sound_relation
+
+/-- algorithms for which `Sound` is stated (Spec.lean) but not proved here: validated by the
+    correspondence and the brute-force oracle only -/
+def C05_unproved : List Alg := [.alldifferent, .gcc, .lexLeq, .noSubCycle, .scc]
 
 /-- non-vacuity: a concrete in-contract, non-empty box on which the call prunes -/
 example : Contract .affineLeq [1, 1, -1, 0] [(2, 5), (2, 5), (0, 10)] ∧
